@@ -99,6 +99,23 @@ def run(ctx) -> None:
             for g in range(12):
                 grp = shuffled[g::12]
                 selections.append((f"group{g}", ["--disable-all", "--enable", ",".join(grp)], grp))
+        # directed: checks whose module looks at anything outside itself (reads the shared errors list, writes to nodes, imports
+        # another module's mutable state — the Locality table of the translator) always get a singleton and a complement run
+        try:
+            from .. import extract_c10
+
+            sus = set()
+            for r in extract_c10.locality_rows():
+                if r.get("errors_other") or r.get("node_writes") or r.get("mutable_imports"):
+                    sus |= {c for c in codes if any(f"{x['prefix']}{x['code']}" == c and x["module"] == r["module"] for x in rows)}
+            for c in sorted(sus):
+                if c not in singles:
+                    singles = [*singles, c]
+                if c not in comps:
+                    comps = [*comps, c]
+            res.bump("directed_singletons", len(sus))
+        except Exception as e:  # noqa: BLE001
+            res.notes.append(f"directed singleton selection skipped: {type(e).__name__}: {e}")
         for c in singles:
             selections.append((f"single:{c}", ["--disable-all", "--enable", c], [c]))
         for c in comps:
